@@ -880,6 +880,8 @@ class Real:
             ld = self.loader(mode, strict, hint)
         except ProviderNotFoundError:
             return {"r": "no-loader"}
+        except Exception as e:  # noqa: BLE001  (the library crashed while BUILDING the loader: an outcome, not a harness fault)
+            return {"r": "escape", "exc": X.exc_name(type(e)), "at": "loader-creation"}
         return run_real(ld, materialise(datum))
 
     def dump(self, mode, strict, hint, value):
@@ -888,6 +890,8 @@ class Real:
             dm = self.dumper(mode, strict, hint)
         except ProviderNotFoundError:
             return {"r": "no-dumper"}
+        except Exception as e:  # noqa: BLE001
+            return {"r": "escape", "exc": X.exc_name(type(e)), "at": "dumper-creation"}
         return run_real(dm, value)
 
 
